@@ -42,13 +42,14 @@ Next ==
        /\ \E sh \in Shapes, c \in Ctors : DoX(Op("New", 0, <<sh, c>>))
     \/ /\ Len(steps) = 1
        /\ Len(live[1].shape) >= 1
+       /\ steps[1].op.a[2] \in {"C", "F", "Fconv"}      \* (the option-order variants are addressed as built)
        /\ \/ \E sl \in SliceListsPrefix(live[1].shape, Pal) :
                /\ ~SliceBad(live[1].shape, sl) /\ ~SliceOpen(live[1].shape, sl)
                /\ DoX(Op("Slice", 1, sl))
           \/ \E p \in Perms(Len(live[1].shape)) : ~IsIdent(p) /\ DoX(Op("T", 1, p))
     \* layouts two steps away: a second transposition of the pending tensor (composition, undo, cycles), a
     \* transposition of a slice, a slice of a lazily transposed tensor
-    \/ /\ Len(steps) = 2 /\ LastOK /\ LastK \in {"Slice", "T"}
+    \/ /\ Len(steps) = 2 /\ LastOK /\ LastK \in {"Slice", "T"} /\ steps[1].op.a[2] \in {"C", "F"}
        /\ Len(live[Len(live)].shape) \in 2..3
        /\ \/ \E p \in Perms(Len(live[Len(live)].shape)) : ~IsIdent(p) /\ DoX(Op("T", Len(live), p))
           \/ /\ LastK = "T"
